@@ -1,0 +1,11 @@
+//go:build verif
+
+package profile
+
+// Contracts for govc (see /verif/DESIGN.md). Comment-only file: contributes no code.
+
+// the profile factory as seen by the handlers (trusted interface contracts: YAML loading is outside the proofs)
+//@ interface ProfileFactory.NormalizeProviderName
+//@   ensures providerName != "" ==> res != ""
+//@ interface ProfileFactory.GetAvailableProfiles
+//@ interface ProfileFactory.GetProfile
